@@ -430,6 +430,20 @@ pub open spec fn nfne_rel<T: Eq + PartialOrd + Send + Sync, A: Clone>(node_names
     }
 }
 
+// `keep` lists, in increasing order, exactly the positions of `all` whose element satisfies `pred`
+pub open spec fn picks<X>(all: Seq<X>, keep: Seq<int>, pred: spec_fn(X) -> bool) -> bool {
+    &&& forall|a: int, b: int| 0 <= a < b < keep.len() ==> keep[a] < keep[b]
+    &&& forall|k: int| 0 <= k < keep.len() ==> 0 <= #[trigger] keep[k] < all.len() && pred(all[keep[k]])
+    &&& forall|i: int| 0 <= i < all.len() && pred(#[trigger] all[i]) ==> keep.contains(i)
+}
+// what get_subgraph(S) builds: new_from_nodes_and_edges over the nodes named in S (original order), exactly the stored edges with
+// both ends in S (get_all_edges() order), the same specs
+pub open spec fn subgraph_outcome<T: Eq + PartialOrd + Send + Sync, A: Clone>(g: Graph<T, A>, sel: Set<T>, kn: Seq<int>, ke: Seq<int>, r: Result<Graph<T, A>, Error>) -> bool {
+    &&& picks(node_names_of(g.nodes_vec@), kn, |x: T| sel.contains(x))
+    &&& picks(g.all_edges_seq(), ke, |e: Edge<T, A>| sel.contains(e.u) && sel.contains(e.v))
+    &&& nfne_rel(Seq::new(kn.len(), |k: int| node_names_of(g.nodes_vec@)[kn[k]]), Seq::new(ke.len(), |k: int| g.all_edges_seq()[ke[k]]), g.specs, r)
+}
+
 // what reverse() returns: a graph rebuilt (new_from_nodes_and_edges) from the same nodes and every edge flipped
 pub open spec fn reverse_outcome<T: Eq + PartialOrd + Send + Sync, A: Clone>(g: Graph<T, A>, r: Result<Graph<T, A>, Error>) -> bool {
     nfne_rel(node_names_of(g.nodes_vec@), Seq::new(g.all_edges_seq().len(), |i: int| spec_reversed(g.all_edges_seq()[i])), g.specs, r)
